@@ -142,6 +142,7 @@ type RunOpts struct {
 	prefix    []Decision // run a single path (replay)
 	witnesses int        // number of completed paths per harness for which a model is extracted
 	fixed     *modelFile // all inputs fixed to these values (concrete re-execution)
+	maxWallS  int        // wall-clock budget per harness; exceeding it is reported like the path budget (inconclusive)
 }
 
 func defaultOpts() RunOpts {
@@ -198,7 +199,7 @@ func runHarness(p *Program, name string, o RunOpts) *HarnessResult {
 				pre := queue[len(queue)-1]
 				queue = queue[:len(queue)-1]
 				started++
-				over := started > o.maxPaths
+				over := started > o.maxPaths || (o.maxWallS > 0 && o.prefix == nil && time.Since(t0) > time.Duration(o.maxWallS)*time.Second)
 				mu.Unlock()
 				if over {
 					mu.Lock()
@@ -217,6 +218,9 @@ func runHarness(p *Program, name string, o RunOpts) *HarnessResult {
 				sols[0].ts = ts
 				sols[0].Reset()
 				ex := newExec(p, ts, sols, name, pre, o)
+				if o.maxWallS > 0 && o.prefix == nil {
+					ex.deadline = t0.Add(time.Duration(o.maxWallS) * time.Second)
+				}
 				mu.Lock()
 				ex.wantWitness = len(res.Witnesses) < o.witnesses
 				mu.Unlock()
